@@ -122,7 +122,7 @@ def explore(ctx):
         cases.append({"lines": ["NEW 0 plain", "EVAL 0 " + common.hexs(text), "ENV 0"], "text": text,
                       "expect": names})
     # several import sets in one declaration (disjoint by prefixing) and re-import on a used interpreter
-    for k in range(200 if ctx.quick else 2000):
+    for k in range(800 if ctx.quick else 2000):
         (t1, n1), (t2, n2) = ctx.rng.choice(ts), ctx.rng.choice(ts)
         text = "(import %s (prefix %s q/))" % (render(t1), render(t2))
         text2 = "(import %s)" % render(t2)
